@@ -316,11 +316,11 @@ func ruleExpCanon(w *World, r *Report) {
 			return
 		}
 		// only success returns matter
-		if !isNilConst(ret.Results[2]) {
+		if !isNilConst(resolveSpill(ret.Results[2])) {
 			return
 		}
 		nret++
-		v := ret.Results[0]
+		v := resolveSpill(ret.Results[0])
 		if b, ok := isConstBool(v); ok && !b && len(ret.Results) == 3 {
 			// `return false, ...` on an error path is fine; on a success path the flag must come from the lookup
 		}
